@@ -191,7 +191,10 @@ def run(ctx):
                 ctx.absorb(res, "crash", "TestCrashEnum")
                 vlib.log("engine TestCrashEnum %s pb=%d %s: %d sequences, %.0fs" % (sc, pb, be, len(part), res["_wall_s"]))
     res = engine(ctx, binary, "TestCrashConcurrent", {"newState": [False, True]}, timeout=1500)
+    for line in res.get("stats", {}).pop("observation_lines", None) or []:
+        print("OBSERVATION: property=%s %s" % (ctx.prop, line), flush=True)
     ctx.absorb(res, "crash", "TestCrashConcurrent")
+    ctx.coverage.setdefault("observations", 0)
     vlib.log("engine TestCrashConcurrent: %s reads in %s rounds, %.0fs" % (
         res.get("stats", {}).get("concurrent_reads"), res.get("stats", {}).get("concurrent_rounds"), res["_wall_s"]))
     try:
